@@ -166,6 +166,49 @@ pub enum IdForm {
     Int,
 }
 
+/// An incoming trace id WITHOUT a usable span id, and how it is placed in the context.
+#[derive(Clone, Debug, PartialEq, Eq, Hash)]
+pub enum TraceOnly {
+    /// `SpanCtxt::new(Some(trace), None, None).push(ctxt)`
+    SpanCtxtPush,
+    /// `Frame::push(ctxt, props!{ trace_id })` with a typed `TraceId` / 32 hex chars / a `u128`
+    Typed,
+    HexLower,
+    HexUpper,
+    Int,
+    /// typed trace id + `span_id: "0000000000000000"`
+    TypedZeroSpanText,
+    /// hex trace id + `span_id: "not-a-span-id"`
+    HexGarbageSpanText,
+    /// `u128` trace id + `span_id: 0u64`
+    IntZeroSpanInt,
+}
+
+impl TraceOnly {
+    pub fn name(&self) -> &'static str {
+        match self {
+            TraceOnly::SpanCtxtPush => "trace-only-spanctxt",
+            TraceOnly::Typed => "trace-only-typed",
+            TraceOnly::HexLower => "trace-only-hex",
+            TraceOnly::HexUpper => "trace-only-HEX",
+            TraceOnly::Int => "trace-only-int",
+            TraceOnly::TypedZeroSpanText => "trace+zero-span-text",
+            TraceOnly::HexGarbageSpanText => "trace+garbage-span-text",
+            TraceOnly::IntZeroSpanInt => "trace-int+zero-span-int",
+        }
+    }
+
+    /// The pushed span id is present but unusable (what a child's parent is then is not settled).
+    pub fn has_unusable_span(&self) -> bool {
+        matches!(self, TraceOnly::TypedZeroSpanText | TraceOnly::HexGarbageSpanText | TraceOnly::IntZeroSpanInt)
+    }
+
+    /// Events that read the trace id straight from the context show it in decimal.
+    pub fn decimal(&self) -> bool {
+        matches!(self, TraceOnly::Int | TraceOnly::IntZeroSpanInt)
+    }
+}
+
 #[derive(Clone, Debug, PartialEq, Eq, Hash)]
 pub enum HeaderSpec {
     /// A header of some other service: its own trace id, span id and flags.
@@ -185,6 +228,9 @@ pub enum Via {
     Thread,
     /// `Frame::push(ctxt, props!{trace_id, span_id})`
     Props { trace: u128, span: u64, form: IdForm },
+    /// An incoming trace id without a usable span id; `handoff`: the child additionally runs on
+    /// another thread through a `Frame::current(ctxt)` captured inside the pushed frame.
+    TraceOnly { trace: u128, how: TraceOnly, handoff: bool },
     /// `Traceparent::push()` (or `emit_traceparent::push(tp, tracestate)` when `with_state`).
     Header { spec: HeaderSpec, with_state: bool },
     /// A fresh thread under a header *formatted from* `Traceparent::current()` and parsed back.
@@ -274,6 +320,18 @@ impl Node {
                             IdForm::HexUpper => b'H',
                             IdForm::Int => b'i',
                         },
+                        Via::TraceOnly { how, handoff, .. } => {
+                            (if *handoff { 8 } else { 0 }) + match how {
+                                TraceOnly::SpanCtxtPush => b'0',
+                                TraceOnly::Typed => b'1',
+                                TraceOnly::HexLower => b'2',
+                                TraceOnly::HexUpper => b'3',
+                                TraceOnly::Int => b'4',
+                                TraceOnly::TypedZeroSpanText => b'5',
+                                TraceOnly::HexGarbageSpanText => b'6',
+                                TraceOnly::IntZeroSpanInt => b'7',
+                            }
+                        }
                         Via::Header { spec, with_state } => match (spec, with_state) {
                             (HeaderSpec::Fresh { flags, .. }, _) => {
                                 if flags & 1 == 1 {
@@ -435,7 +493,22 @@ impl<'a> Gen<'a> {
             if g.chance(self.p.p_remote, 16) {
                 return Via::Remote;
             }
-        } else if top && g.chance(9, 16) {
+        } else if top && g.chance(4, 16) {
+            return Via::TraceOnly {
+                trace: rand_trace(g),
+                how: match g.below(8) {
+                    0 => TraceOnly::SpanCtxtPush,
+                    1 => TraceOnly::Typed,
+                    2 => TraceOnly::HexLower,
+                    3 => TraceOnly::HexUpper,
+                    4 => TraceOnly::Int,
+                    5 => TraceOnly::TypedZeroSpanText,
+                    6 => TraceOnly::HexGarbageSpanText,
+                    _ => TraceOnly::IntZeroSpanInt,
+                },
+                handoff: g.chance(1, 4),
+            };
+        } else if top && g.chance(7, 12) {
             return Via::Props {
                 trace: rand_trace(g),
                 span: rand_span(g),
@@ -561,6 +634,10 @@ pub enum Point {
     /// On the fresh thread of a `Remote` step, before the header is pushed / after it ended.
     RemoteTop(u16),
     RemoteEnd(u16),
+    /// `TraceOnly { handoff: true }`: on the other thread, inside the frame captured within the
+    /// pushed incoming frame, right before / after the child.
+    HopIn(u16),
+    HopOut(u16),
 }
 
 #[derive(Clone, Debug)]
@@ -957,6 +1034,48 @@ fn push_props<X: Env>(trace: u128, span: u64, form: &IdForm) -> Frame<&'static X
     }
 }
 
+fn push_trace_only<X: Env>(trace: u128, how: &TraceOnly) -> Frame<&'static X::C> {
+    let ctxt = X::rt().ctxt();
+    let typed = TraceId::from_u128(trace).expect("non-zero");
+    match how {
+        TraceOnly::SpanCtxtPush => SpanCtxt::new(Some(typed), None, None).push(ctxt),
+        TraceOnly::Typed => {
+            let trace_id = typed;
+            Frame::push(ctxt, emit::props! { trace_id })
+        }
+        TraceOnly::HexLower => {
+            let t = format!("{:032x}", trace);
+            let trace_id: &str = &t;
+            Frame::push(ctxt, emit::props! { trace_id })
+        }
+        TraceOnly::HexUpper => {
+            let t = format!("{:032X}", trace);
+            let trace_id: &str = &t;
+            Frame::push(ctxt, emit::props! { trace_id })
+        }
+        TraceOnly::Int => {
+            let trace_id = trace;
+            Frame::push(ctxt, emit::props! { trace_id })
+        }
+        TraceOnly::TypedZeroSpanText => {
+            let trace_id = typed;
+            let span_id = "0000000000000000";
+            Frame::push(ctxt, emit::props! { trace_id, span_id })
+        }
+        TraceOnly::HexGarbageSpanText => {
+            let t = format!("{:032x}", trace);
+            let trace_id: &str = &t;
+            let span_id = "not-a-span-id";
+            Frame::push(ctxt, emit::props! { trace_id, span_id })
+        }
+        TraceOnly::IntZeroSpanInt => {
+            let trace_id = trace;
+            let span_id = 0u64;
+            Frame::push(ctxt, emit::props! { trace_id, span_id })
+        }
+    }
+}
+
 fn build_header(spec: &HeaderSpec) -> Tp {
     match spec {
         HeaderSpec::Fresh { trace, span, flags } => Tp {
@@ -1012,6 +1131,28 @@ fn run_via_blocking<X: Env>(parent: u32, i: u16, child: &Node, via: &Via, cx: &T
             push_props::<X>(*trace, *span, form).call(|| {
                 observe::<X>(cx, parent, Point::ViaIn(i));
                 run_node::<X>(child, cx);
+                observe::<X>(cx, parent, Point::ViaOut(i));
+            });
+        }
+        Via::TraceOnly { trace, how, handoff } => {
+            push_trace_only::<X>(*trace, how).call(|| {
+                observe::<X>(cx, parent, Point::ViaIn(i));
+                if *handoff {
+                    let f = X::in_current_frame(Box::new(move || {
+                        with_tree(cx, || {
+                            observe::<X>(cx, parent, Point::HopIn(i));
+                            run_node::<X>(child, cx);
+                            observe::<X>(cx, parent, Point::HopOut(i));
+                        })
+                    }));
+                    std::thread::scope(|s| {
+                        if let Err(p) = s.spawn(f).join() {
+                            std::panic::resume_unwind(p);
+                        }
+                    });
+                } else {
+                    run_node::<X>(child, cx);
+                }
                 observe::<X>(cx, parent, Point::ViaOut(i));
             });
         }
@@ -1116,7 +1257,7 @@ async fn body_async<X: Env>(node: &Node, cx: &TreeCx) {
                             })
                             .await
                     }
-                    Via::Thread | Via::Remote => run_via_blocking::<X>(node.id, i, child, via, cx),
+                    Via::Thread | Via::Remote | Via::TraceOnly { .. } => run_via_blocking::<X>(node.id, i, child, via, cx),
                 }
                 observe::<X>(cx, node.id, Point::After(i));
             }
